@@ -603,6 +603,7 @@ func lemma_parseFrame_trans(p *Parser) {
 //@   loop 1 invariant [frame] parserInv(p) && sameCtx(p.contextStack, old(p.contextStack)) && p.currentExpressionPrecedence == old(p.currentExpressionPrecedence) && isPrefixErr(old(p.errors), p.errors)
 //@   loop 1 invariant [program] program != nil && forall(0, len(program.Statements), func(i int) bool { return !isNil(program.Statements[i]) })
 //@   ensures [program@C11] result0 != nil
+//@   ensures [eof@C15] eq(result0.EOF, p.CurrentToken) && p.CurrentToken.Type == token.EOF
 //@   ensures [err-iff-errors@C11] (result1 != nil) == (len(p.errors) > 0)
 //@   ensures [no-nil-entries@C11] forall(0, len(result0.Statements), func(i int) bool { return !isNil(result0.Statements[i]) })
 
